@@ -68,6 +68,7 @@ type scCmd struct {
 	Kind  string  `json:"kind"`
 	First int     `json:"first"`
 	Ord   bool    `json:"ord"`
+	Mid   bool    `json:"mid"` // the namespace is reloaded while this command executes (at its first backend statement)
 	F     scFault `json:"f"`
 	Exp   *scExp  `json:"exp"`
 	SQL   string  `json:"sql,omitempty"` // optional explicit SQL (replay files / finding cases)
@@ -152,6 +153,8 @@ type scWorld struct {
 	used     [][3]int // slice, conn, inTx(0/1)
 	ended    map[int]bool
 	firstGetSlice int
+	midReload     func() // armed: called (once) at the command's first backend statement
+	midChange     bool   // a reload happened during the current command
 }
 
 func scCid(sl, ro, n int) int { return sl*100 + ro*10 + n }
@@ -265,6 +268,7 @@ func (w *scWorld) monCmd(k string, sl []int) {
 	w.used = nil
 	w.ended = map[int]bool{}
 	w.firstGetSlice = -1
+	w.midChange = false
 	w.log(scEvent{Ev: "cmd", K: k, Sl: sl})
 }
 
@@ -315,6 +319,10 @@ func (w *scWorld) monUse(c *scConn, op string) {
 		if w.ks {
 			if w.ksRec[sl] != c {
 				w.dev("C23", "statement-not-on-pinned-connection", "statement on %d, slice %d is pinned to %v", c.id, sl, scID(w.ksRec[sl]))
+			}
+			if w.inTx() && c.pool.ro != 0 && w.user != "ro" {
+				// (a read-only user is pinned to a replica by design and cannot write: see the checks' level_note)
+				w.dev("C18", "tx-statement-on-replica", "keep-session: statement inside a transaction on replica connection %d", c.id)
 			}
 		} else if w.inTx() {
 			if c.pool.ro != 0 {
@@ -475,7 +483,7 @@ func (w *scWorld) monReply(ok, alive, ac, intx bool) {
 			}
 		}
 	}
-	w.stale = false
+	w.stale = w.midChange // a reload during the command concerns the next one
 	w.busy = false
 }
 
@@ -549,6 +557,16 @@ func (c *scConn) do(op string) error {
 	w := c.w
 	w.mu.Lock()
 	defer w.mu.Unlock()
+	if op == "exec" && w.midReload != nil {
+		// the namespace is reloaded (by an administrator, concurrently) while this statement is on its way
+		f := w.midReload
+		w.midReload = nil
+		w.midChange = true
+		w.log(scEvent{Ev: "nschange"})
+		w.mu.Unlock()
+		f()
+		w.mu.Lock()
+	}
 	w.monUse(c, op)
 	if c.st == "gone" {
 		w.monOp(c, op, false)
@@ -1281,10 +1299,17 @@ func scReplayOnce(m *Manager, cs *scCase, tid int, r *rand.Rand) (res scReplayRe
 			w.fault = &f
 		}
 		w.mu.Unlock()
+		if c.Mid {
+			w.midReload = func() {
+				if e := scReload(m, cs.Ks, w); e != nil {
+					panic(e)
+				}
+			}
+		}
 		ok := s.iteration(c.K, c.Sl, cmd, data)
 		w.mu.Lock()
-		missed := w.fault != nil
-		w.fault = nil
+		missed := w.fault != nil || w.midReload != nil
+		w.fault, w.midReload = nil, nil
 		first := w.firstGetSlice
 		w.mu.Unlock()
 		if c.Ord && first >= 0 && first != c.First && !diverged {
